@@ -261,3 +261,203 @@ pub proof fn c11_structure(h: Seq<StateEntry>, i: int, j: int, es2: Seq<StateEnt
     let t = h.take(i);
     assert(forall|k: int| 0 <= k < t.len() ==> #[trigger] t[k] == h[k]);
 }
+
+// ---- LINK harnesses: the contracts other units ASSUME for functions proved here, proved from the real ones ---------------------------
+// Each harness has the assuming unit's stub signature, its `requires` / `ensures` copied VERBATIM from that unit's prelude.rs, and a
+// body that is ONE call of the real extracted function: Verus proves "real contract ==> assumed contract" on every run.
+// A later edit of a stub has to be mirrored here (and vice versa).
+//
+// (vocabulary of units/encryption/prelude.rs used by the copied clauses: there `entry_bytes` and `crc_fields` are names without a
+// definition ("C11 owns the journal layout"); INTERPRETATION here: the layout `enc` and the checksum over `crc_input` of this unit.
+// `cmd_wf` is the same text in both preludes; StateEntry is the same extracted struct in both units)
+pub open spec fn entry_bytes(e: StateEntry) -> Seq<u8> { enc(e) }
+pub open spec fn crc_fields(index: u64, term: u64, leader_id: u32, version: u32, flags: u64, ts: u64, user_id: u32, context: Seq<u8>, command: Seq<u8>) -> u32 {
+    crc32(crc_input(index, term, leader_id, version, flags, ts, user_id, context, command))
+}
+impl StateEntry {
+    // copied from units/encryption/prelude.rs, stub `StateEntry::to_bytes`
+    // label: C11.link.encryption.StateEntry.to_bytes
+    pub fn link_encryption_to_bytes(&self) -> (r: ByteSeq)
+        requires self.context@.len() <= u32::MAX && cmd_wf(self.command@),
+        ensures r@ == entry_bytes(*self)
+    {
+        self.to_bytes()
+    }
+
+    // copied from units/encryption/prelude.rs, stub `StateEntry::calculate_checksum`
+    // label: C11.link.encryption.StateEntry.calculate_checksum
+    pub fn link_encryption_calculate_checksum(index: u64, term: u64, leader_id: u32, version: u32, flags: u64, timestamp: IggyTimestamp, user_id: u32,
+                              context: &ByteSeq, command: &ByteSeq) -> (r: u32)
+        requires context@.len() <= u32::MAX && command@.len() <= 8 + u32::MAX,
+        ensures r == crc_fields(index, term, leader_id, version, flags, timestamp.0, user_id, context@, command@),
+    {
+        StateEntry::calculate_checksum(index, term, leader_id, version, flags, timestamp, user_id, context, command)
+    }
+}
+
+// ---- the request handlers' view of the journal: `StateKind::apply` / `StateLog::apply` over a ghost `log()` ----------------------------
+// Units journal_sinks (log(): Seq<(u32, EntryCommand)>), alloc_runtime, runtime_more, credentials (log(): Seq<EntryCommand>) assume of
+// the journal's `apply`: Ok ==> log' == log.push(entry); Err ==> log' == log || log' == log.push(entry), with `log()` a name without a
+// definition over an opaque stand-in. The real `FileState::apply` is proved here over the BYTES of the file ([C11.apply-ok],
+// [C11.apply-ok.content], [C11.apply-err.file]). INTERPRETATION offered for `log()`: a ghost sequence l of the (user id, command) pairs
+// handed to `apply` that the file DENOTES - the file is a valid journal whose entries carry, in order, exactly the user ids and the journal
+// forms (`cmd_bytes`) of l. That is a RELATION between l and the file, not a function of the file: reading the command VALUES back
+// from the bytes needs `cmd_bytes` to be injective, which is the decode-after-encode round trip of unit journal_cmd ([C13.journal.cmd.rt]:
+// up to string views, under the per-type hypothesis payload_rt) - not restated here. The harnesses below therefore carry the stubs'
+// equations in relational form: "if the old file denotes l, the new file denotes l.push(entry)". EntryCommand is opaque in this unit
+// (the handler units have the real enum): the pairs are compared through `cmd_bytes`, a projection.
+pub open spec fn hist(es: Seq<StateEntry>) -> Seq<(u32, Seq<u8>)> { Seq::new(es.len(), |i: int| (es[i].user_id, es[i].command@)) }
+pub open spec fn cmd_hist(l: Seq<(u32, EntryCommand)>) -> Seq<(u32, Seq<u8>)> { Seq::new(l.len(), |i: int| (l[i].0, l[i].1.cmd_bytes())) }
+pub open spec fn denotes(file: Seq<u8>, l: Seq<(u32, EntryCommand)>) -> bool {
+    exists|es: Seq<StateEntry>| #[trigger] journal_of(file, es) && hist(es) =~= cmd_hist(l)
+}
+// the same without the user ids (the `Seq<EntryCommand>` logs of units alloc_runtime, runtime_more, credentials)
+pub open spec fn hist1(es: Seq<StateEntry>) -> Seq<Seq<u8>> { Seq::new(es.len(), |i: int| es[i].command@) }
+pub open spec fn cmd_hist1(l: Seq<EntryCommand>) -> Seq<Seq<u8>> { Seq::new(l.len(), |i: int| l[i].cmd_bytes()) }
+pub open spec fn denotes1(file: Seq<u8>, l: Seq<EntryCommand>) -> bool {
+    exists|es: Seq<StateEntry>| #[trigger] journal_of(file, es) && hist1(es) =~= cmd_hist1(l)
+}
+// not the journal of any history: the loader returns Err on it ([C11.shape.load_post])
+pub open spec fn no_journal(file: Seq<u8>) -> bool { forall|es: Seq<StateEntry>| !#[trigger] journal_of(file, es) }
+
+// a journal of n entries extended by the entry `apply` builds: every history the old file denotes, extended by that entry, is
+// denoted by the new file
+pub proof fn lemma_denotes_push(f0: Seq<u8>, f1: Seq<u8>, n: u64, user_id: u32, command: EntryCommand)
+    requires jcount(f0, n as nat), appended_cmd(f0, f1, n, user_id, command.cmd_bytes()),
+    ensures
+        forall|l: Seq<(u32, EntryCommand)>| #[trigger] denotes(f0, l) ==> denotes(f1, l.push((user_id, command))),
+        forall|l: Seq<EntryCommand>| #[trigger] denotes1(f0, l) ==> denotes1(f1, l.push(command)),
+{
+    let es_n = choose|es: Seq<StateEntry>| #[trigger] journal_of(f0, es) && es.len() == n as nat;
+    let e = choose|e: StateEntry| f1 == f0 + #[trigger] enc(e) && entry_for(e, n, user_id, command.cmd_bytes());
+    assert forall|l: Seq<(u32, EntryCommand)>| #[trigger] denotes(f0, l) implies denotes(f1, l.push((user_id, command))) by {
+        let es = choose|es: Seq<StateEntry>| #[trigger] journal_of(f0, es) && hist(es) =~= cmd_hist(l);
+        c11_unique(f0, es, es_n);
+        lemma_enc_all_push(es, e);
+        let es2 = es.push(e);
+        assert(journal_of(f1, es2));
+        let l2 = l.push((user_id, command));
+        assert(hist(es).len() == cmd_hist(l).len());
+        assert forall|i: int| 0 <= i < es2.len() implies hist(es2)[i] == cmd_hist(l2)[i] by {
+            if i < es.len() { assert(hist(es)[i] == cmd_hist(l)[i]); assert(es2[i] == es[i]); assert(l2[i] == l[i]); }
+        }
+        assert(hist(es2) =~= cmd_hist(l2));
+    }
+    assert forall|l: Seq<EntryCommand>| #[trigger] denotes1(f0, l) implies denotes1(f1, l.push(command)) by {
+        let es = choose|es: Seq<StateEntry>| #[trigger] journal_of(f0, es) && hist1(es) =~= cmd_hist1(l);
+        c11_unique(f0, es, es_n);
+        lemma_enc_all_push(es, e);
+        let es2 = es.push(e);
+        assert(journal_of(f1, es2));
+        let l2 = l.push(command);
+        assert(hist1(es).len() == cmd_hist1(l).len());
+        assert forall|i: int| 0 <= i < es2.len() implies hist1(es2)[i] == cmd_hist1(l2)[i] by {
+            if i < es.len() { assert(hist1(es)[i] == cmd_hist1(l)[i]); assert(es2[i] == es[i]); assert(l2[i] == l[i]); }
+        }
+        assert(hist1(es2) =~= cmd_hist1(l2));
+    }
+}
+// what a FAILED apply leaves: nothing (k == 0), the whole entry (k == |enc(e)|: the failure was reported after the write), or a torn
+// prefix - and then the file is not a journal of anything any more ([C11.tail.torn])
+pub proof fn lemma_part_cases(f0: Seq<u8>, f1: Seq<u8>, n: u64, user_id: u32, c: Seq<u8>)
+    requires jcount(f0, n as nat), appended_part(f0, f1, n, user_id, c),
+    ensures f1 == f0 || appended_cmd(f0, f1, n, user_id, c) || no_journal(f1),
+{
+    let (e, k) = choose|e: StateEntry, k: int| 0 <= k <= enc(e).len() && f1 == f0 + #[trigger] enc(e).subrange(0, k) && entry_for(e, n, user_id, c);
+    if k == 0 {
+        assert(f0 + enc(e).subrange(0, 0) =~= f0);
+    } else if k == enc(e).len() {
+        assert(enc(e).subrange(0, k) =~= enc(e));
+    } else {
+        let es_n = choose|es: Seq<StateEntry>| #[trigger] journal_of(f0, es) && es.len() == n as nat;
+        assert forall|es2: Seq<StateEntry>| !#[trigger] journal_of(f1, es2) by { c11_torn(f0, es_n, e, k, es2); }
+    }
+}
+
+impl FileState {
+    // the stub `StateKind::apply` of units/journal_sinks/prelude.rs (log(): Seq<(u32, EntryCommand)>), its two clauses in the relational
+    // reading above; `requires` = the real function's (the stub has none: see the comment at the stub). The Err arm has a THIRD case the
+    // stub does not list: a torn write, after which the file is no journal at all.
+    // label: C05.link.journal_sinks.apply
+    pub fn link_journal_sinks_apply(&mut self, user_id: u32, command: EntryCommand) -> (r: Result<(), IggyError>)
+        requires old(self).encryptor is None, jwf(old(self)), command.payload_fits(),
+        ensures
+            r is Ok ==> forall|l: Seq<(u32, EntryCommand)>| #[trigger] denotes(old(self).persister.file(), l)
+                ==> denotes(final(self).persister.file(), l.push((user_id, command))),
+            r is Err ==> (forall|l: Seq<(u32, EntryCommand)>| #[trigger] denotes(old(self).persister.file(), l)
+                ==> (denotes(final(self).persister.file(), l) || denotes(final(self).persister.file(), l.push((user_id, command)))))
+                || no_journal(final(self).persister.file()),
+    {
+        let ghost f0 = self.persister.file();
+        let ghost n = self.entries_count.v;
+        let r = self.apply(user_id, command);
+        proof {
+            if r is Ok {
+                lemma_denotes_push(f0, self.persister.file(), n, user_id, command);
+            } else {
+                lemma_part_cases(f0, self.persister.file(), n, user_id, command.cmd_bytes());
+                if appended_cmd(f0, self.persister.file(), n, user_id, command.cmd_bytes()) {
+                    lemma_denotes_push(f0, self.persister.file(), n, user_id, command);
+                }
+            }
+        }
+        r
+    }
+
+    // the stubs `StateKind::apply` of units/alloc_runtime/prelude.rs and units/runtime_more/prelude.rs and `StateLog::apply` of
+    // units/credentials/prelude.rs (log(): Seq<EntryCommand>, the user id not recorded), same reading
+    // label: C05.link.alloc_runtime.apply
+    pub fn link_alloc_runtime_apply(&mut self, user_id: u32, command: EntryCommand) -> (r: Result<(), IggyError>)
+        requires old(self).encryptor is None, jwf(old(self)), command.payload_fits(),
+        ensures
+            r is Ok ==> forall|l: Seq<EntryCommand>| #[trigger] denotes1(old(self).persister.file(), l)
+                ==> denotes1(final(self).persister.file(), l.push(command)),
+            r is Err ==> (forall|l: Seq<EntryCommand>| #[trigger] denotes1(old(self).persister.file(), l)
+                ==> (denotes1(final(self).persister.file(), l) || denotes1(final(self).persister.file(), l.push(command))))
+                || no_journal(final(self).persister.file()),
+    {
+        let ghost f0 = self.persister.file();
+        let ghost n = self.entries_count.v;
+        let r = self.apply(user_id, command);
+        proof {
+            if r is Ok {
+                lemma_denotes_push(f0, self.persister.file(), n, user_id, command);
+            } else {
+                lemma_part_cases(f0, self.persister.file(), n, user_id, command.cmd_bytes());
+                if appended_cmd(f0, self.persister.file(), n, user_id, command.cmd_bytes()) {
+                    lemma_denotes_push(f0, self.persister.file(), n, user_id, command);
+                }
+            }
+        }
+        r
+    }
+}
+
+// the base of that reading: the empty file (what `init` creates when there is no journal) denotes the empty log, so along
+// acknowledged applies "the file denotes the handlers' log" is an invariant ([C05.link.journal_sinks.apply], [C05.link.alloc_runtime.apply])
+// label: C05.link.log.base
+pub proof fn c05_log_base()
+    ensures
+        denotes(Seq::<u8>::empty(), Seq::<(u32, EntryCommand)>::empty()),
+        denotes1(Seq::<u8>::empty(), Seq::<EntryCommand>::empty()),
+{
+    let es = Seq::<StateEntry>::empty();
+    assert(journal_of(Seq::<u8>::empty(), es));
+    assert(hist(es) =~= cmd_hist(Seq::<(u32, EntryCommand)>::empty()));
+    assert(hist1(es) =~= cmd_hist1(Seq::<EntryCommand>::empty()));
+}
+
+impl FileState {
+    // the R11 bridge stub `FileState::load_entries` of THIS unit's prelude (used by `init`): its `requires` / `ensures` copied verbatim,
+    // proved from the extracted remainder `load_entries_from` under exactly the A-io hypotheses the bridge stands for - the dropped
+    // prologue opened the file the persister appends to (`file.data() == self.persister.file()`) and `file_size` is its metadata().len().
+    // What stays assumed by the bridge is only that prologue (path exists / open / metadata), not the loader.
+    // label: C11.link.journal.load_entries
+    pub fn link_journal_load_entries(&self, file: File, file_size: u64) -> (r: Result<Vec<StateEntry>, IggyError>)
+        requires self.encryptor is None,
+            file.data() == self.persister.file(), file_size == file.data().len(),
+        ensures r matches Ok(es) ==> load_post(self.persister.file(), es@) && self.persister.file().len() <= u64::MAX,
+    {
+        self.load_entries_from(file, file_size)
+    }
+}
